@@ -13,13 +13,17 @@ the other thread instead of blocking the process, and takes the lock when the ba
 lock is free.  A lock that can never be obtained (owner finished / self re-acquire) is recorded as
 `deadlock` and the thread is unwound with a BaseException.
 
+T runs on the calling thread (sys.settrace installed for the duration of the step and restored), R on
+a persistent daemon thread of the process, so one schedule costs one OS wake-up per baton hand-over.
+
 Everything is deterministic: the schedule, not the OS, decides who runs.  The same functions and
 the same switch list always give the same interleaving (the event stream only depends on the code
-paths taken).  Nothing of this touches the code under test; `sys.settrace` is installed inside the
-two worker threads only.
+paths taken).  Nothing of this touches the code under test.
 """
 from __future__ import annotations
 
+import gc
+import os
 import sys
 import threading
 from typing import Any, Callable
@@ -104,7 +108,8 @@ class Baton:
         self.count = {"T": 0, "R": 0}                # events per thread
         self._sw_i = 0
         self._next = sw[0] if sw else -1
-        self._go = {"T": threading.Semaphore(0), "R": threading.Semaphore(0)}
+        self._go: dict = {}                          # baton semaphores, set by run()
+        self._r_finished = threading.Semaphore(0)
         self.done = {"T": False, "R": False}
         self.started = {"T": False, "R": False}
         self._ids: dict[int, str] = {}
@@ -128,7 +133,10 @@ class Baton:
     def _handoff(self, me: str) -> None:
         other = OTHER[me]
         self._go[other].release()
-        if not self._go[me].acquire(timeout=self.WAIT_S):
+        import time as _t; _t0 = _t.time()
+        _r = self._go[me].acquire(timeout=self.WAIT_S)
+        if _t.time() - _t0 > 2: sys.stderr.write("DBG slow handoff wait %.1fs me=%s n=%d pid=%d\n" % (_t.time() - _t0, me, self.n, os.getpid()))
+        if not _r:
             self.hung = True
             raise _Abort()
 
@@ -193,49 +201,77 @@ class Baton:
 
         return glob
 
-    def _body(self, name: str, fn: Callable[[], Any]) -> None:
-        self._ids[threading.get_ident()] = name
+    def _finish(self, name: str) -> None:
+        self.done[name] = True
+        for lk in self.locks:
+            if lk.owner == name:         # only after an abort; a normal `with` has released it
+                lk.owner = None
+
+    def _body_r(self, fn: Callable[[], Any]) -> None:
+        """runs on the persistent request thread once the baton is first handed to R"""
         try:
-            if not self._go[name].acquire(timeout=self.WAIT_S):
-                self.hung = True
-                return
-            self.started[name] = True
-            if name == "R" and self.t_events_at_r_start is None:
+            self.started["R"] = True
+            if self.t_events_at_r_start is None:
                 self.t_events_at_r_start = self.count["T"]
-            sys.settrace(self._tracer(name))
+            sys.settrace(self._tracer("R"))
             try:
-                self.result[name] = fn()
+                self.result["R"] = fn()
             finally:
                 sys.settrace(None)
         except _Abort:
             pass
         except BaseException as ex:      # not swallowed: re-raised by run() in the caller's thread as SchedulerError
-            self.error[name] = ex
+            self.error["R"] = ex
         finally:
-            self.done[name] = True
-            for lk in self.locks:
-                if lk.owner == name:     # only after an abort; a normal `with` has released it
-                    lk.owner = None
-            if not self.done[OTHER[name]]:
-                self._go[OTHER[name]].release()
+            self._finish("R")
+            if not self.done["T"]:
+                self._go["T"].release()
+            self._r_finished.release()
 
     def run(self, t_fn: Callable[[], Any], r_fn: Callable[[], Any]) -> "Baton":
+        """T runs on the calling thread, R on a persistent worker thread (fewer OS wake-ups per schedule than two fresh
+        threads: one per baton hand-over)."""
         for lk in self.locks:
             if lk.owner is not None:
                 raise SchedulerError("lock held at the start of an interleaved step")
+        w = _worker()
+        self._go = {"T": threading.Semaphore(0), "R": w.sem}
+        self._r_finished = threading.Semaphore(0)
+        self._ids = {threading.get_ident(): "T", w.thread.ident: "R"}
+        for lk in self.locks:
             lk.sched = self
-        tt = threading.Thread(target=self._body, args=("T", t_fn), name="baton-T", daemon=True)
-        tr = threading.Thread(target=self._body, args=("R", r_fn), name="baton-R", daemon=True)
+        w.job = lambda: self._body_r(r_fn)
+        old_trace = sys.gettrace()
+        ok = False
+        # no cyclic garbage collection while lines are being counted: finalisers of earlier engines (generators of dead
+        # interpreters run their `finally` blocks in openpectus code) would otherwise show up in the event stream at
+        # allocation-dependent positions and make switch indices depend on the history of the process
+        gc_was_enabled = gc.isenabled()
+        gc.disable()
         try:
-            tt.start()
-            tr.start()
-            self._go["T"].release()
-            tt.join(self.WAIT_S * 2)
-            tr.join(self.WAIT_S * 2)
+            self.started["T"] = True
+            try:
+                sys.settrace(self._tracer("T"))
+                try:
+                    self.result["T"] = t_fn()
+                finally:
+                    sys.settrace(old_trace)
+            except _Abort:
+                pass
+            self._finish("T")
+            if not self.done["R"]:
+                self._go["R"].release()          # R starts, or resumes, and runs to its end
+            import time as _t; _t0 = _t.time()
+            ok = self._r_finished.acquire(timeout=self.WAIT_S * 2)
+            if _t.time() - _t0 > 2: sys.stderr.write("DBG slow r_finished wait %.1fs n=%d pid=%d\n" % (_t.time() - _t0, self.n, os.getpid()))
         finally:
+            if not ok:
+                _discard_worker(w)               # the request thread is stuck or in an unknown state: never reuse it
             for lk in self.locks:
                 lk.sched = None
-        if tt.is_alive() or tr.is_alive() or self.hung:
+            if gc_was_enabled:
+                gc.enable()
+        if not ok or self.hung:
             raise SchedulerError("scheduler hang (events=%d, switches=%r)" % (self.n, self.switches))
         if self.error:
             name, ex = sorted(self.error.items())[0]
@@ -245,6 +281,42 @@ class Baton:
         for e in self.switch_log:
             e.pop("_other_before", None)
         return self
+
+
+class _Worker:
+    """the persistent request thread of this process; woken by the first hand-over of the baton to R"""
+
+    def __init__(self):
+        self.pid = os.getpid()
+        self.sem = threading.Semaphore(0)
+        self.job: Callable[[], Any] | None = None
+        self.dead = False
+        self.thread = threading.Thread(target=self._loop, name="baton-R", daemon=True)
+        self.thread.start()
+
+    def _loop(self):
+        while not self.dead:
+            self.sem.acquire()
+            job, self.job = self.job, None
+            if job is not None:
+                job()
+            del job      # do not keep the finished step (engine, interpreter generators) alive into the next one
+
+
+_the_worker: list = [None]
+
+
+def _worker() -> _Worker:
+    w = _the_worker[0]
+    if w is None or w.dead or w.pid != os.getpid() or not w.thread.is_alive():
+        w = _the_worker[0] = _Worker()
+    return w
+
+
+def _discard_worker(w: _Worker) -> None:
+    w.dead = True
+    if _the_worker[0] is w:
+        _the_worker[0] = None
 
 
 __all__ = ["Baton", "BatonLock", "SchedulerError"]
